@@ -210,7 +210,9 @@ func genC07Wire(t *rapid.T) c07Scen {
 				sp.ID = id
 				if s.SubVers[cl] != 5 {
 					sp.NL, sp.RAP, sp.RH, sp.ID = false, false, 0, 0
-				} else if rapid.IntRange(0, 5).Draw(t, "shared") == 0 {
+				}
+				// the broker accepts $share/<group>/<filter> from every protocol version
+				if rapid.IntRange(0, 5).Draw(t, "shared") == 0 {
 					sp.Group, sp.NL = fmt.Sprintf("g%d", cl), false // sole member of its own group
 				}
 				dup := false
@@ -379,6 +381,9 @@ func runC07Wire(s c07Scen, c *ev.Case) *ev.Violation {
 				}
 				_, existed := subs[st.Client][sp.full()]
 				replay := sp.Group == "" && (cl.V != mw.V5 || sp.RH == 0 || (sp.RH == 1 && !existed))
+				if sp.Group != "" && cl.V != mw.V5 {
+					c.Label("shared_subscribe_v3")
+				}
 				if sp.Group != "" {
 					c.Label("shared_subscribe")
 				}
